@@ -196,3 +196,7 @@ class PBT_on_trial_result:
             src = s.self._trial_decisions_stack[n1 - 1][0]
             out["clone-source-is-live"] = src != t and (src in s.self._trial_state) and not s.self._trial_state[src].stopped
         return out
+
+
+# synchronous Hyperband: a trial that reached its rung level may be promoted later, so it is PAUSED (check-point kept), never stopped
+from contracts.c05 import SyncHB_on_trial_result, I_sbm_level_to_prev_level, I_ss_on_trial_result, I_sbm_on_result  # noqa: F401,E402
